@@ -207,3 +207,15 @@ Section Regions.
     | RError _ => None
     end.
 End Regions.
+
+(* Histories of calls on ONE SphPolygon object: area() and inverse() leave the object as it is (inverse() builds a new
+   polygon from np.flipud(self.vertices)), invert() reverses the object's own vertex list. *)
+Inductive pop := PArea | PInverse | PInvert.
+Definition pstep {V} (st : list V) (o : pop) : list V := match o with PInvert => inverse st | _ => st end.
+Definition pret {V} (st : list V) (o : pop) : option (list V) := match o with PInverse => Some (inverse st) | _ => None end.
+(* per call: the object's vertex list after the call, and the vertex list of the returned polygon *)
+Fixpoint ptrace {V} (st : list V) (h : list pop) : list (list V * option (list V)) :=
+  match h with
+  | [] => []
+  | o :: r => (pstep st o, pret st o) :: ptrace (pstep st o) r
+  end.
